@@ -443,6 +443,25 @@ def run(ctx):
                             fails.append((bx, 'filtered output %s is not (provably) well-formed UTF-8' % (['%02X-%02X' % g for g in got],)))
             ctx.check(not fails, R6, 'utf_to_utf<char,char>:%s:len=%d' % ('stop' if how else 'skip', L), ('on bytes %s: %s' % (' '.join('%02X-%02X' % tuple(b) for b in fails[0][0]), fails[0][1])) if fails else '', u2u.where,
                       detail={'boxes': nb, 'counterexamples': [(' '.join('%02X-%02X' % tuple(b) for b in bx), w_) for bx, w_ in fails[:4]]})
+    # the convenience overloads hand the whole text and the caller's method to the range overload
+    for f in sorted([g for g in P.fns.values() if g.bname == 'booster::locale::conv::utf_to_utf' and len(g.params) == 2 and g.body is not None], key=lambda g: g.id):
+        sp, hp = q.param_by_index(f, 0), q.param_by_index(f, 1)
+        fw = [i for i in f.calls() if f.N(i).get('callee') == u2u.id]
+        is_str = 'basic_string' in (f.types[f.params[0]['t']] or '')
+        ok = len(fw) == 1 and q.always_before_exit(f, fw) and any(f.contains(i, fw[0]) or f.strip(f.ret_value(i)) == fw[0] for i in f.returns() if f.ret_value(i) is not None)
+        if ok:
+            a_ = f.args(fw[0])
+            dcalls = lambda e: set(q.short_of(f.callee(j) or '') for j in q.expr_calls_deep(f, e))
+            ok = f.ref_of(a_[2]) == hp and sp in q.deep_refs(f, a_[0]) and (sp in q.deep_refs(f, a_[1]) or not is_str)
+            if ok and is_str:
+                ok = bool(dcalls(a_[0]) & {'c_str', 'data', 'begin'}) and not (dcalls(a_[0]) & {'size', 'length', 'end'}) and bool(dcalls(a_[1]) & {'size', 'length', 'end'})
+            elif ok:
+                # NUL-terminated text: the end is found by a scan for the terminator that starts at the text
+                ev = f.ref_of(a_[1])
+                ok = f.ref_of(a_[0]) == sp and bool(ev) and ev.startswith('v:') and any(v_ is not None and sp in f.subtree_refs(v_) for (d_, v_) in f.defs_of_var(ev)) and \
+                    any(f.N(w_)['k'] == 'UnaryOperator' and f.N(w_).get('op') in ('++',) and ev in f.subtree_refs(w_) for L_ in q.loops(f) for w_ in f.walk(L_))
+        ctx.check(ok, R6, 'utf_to_utf(%s, how):whole-text-and-method-forwarded' % ('string' if is_str else 'c-string'), 'the convenience overload does not convert the whole text [begin, end) with the caller\'s method '
+                  '(a std::string must not be cut at its first NUL)', f.where)
     # the generic (iconv / ICU) fall-back of encoding::valid must let conversion errors surface
     vf = [f for f in PE.by_bname.get('cppcms::encoding::valid', []) if len(f.params) == 4 and 'basic_string' in f.id]
     ctx.require(len(vf) >= 1, 'C14.R6: encoding::valid(encoding,begin,end,count) not found')
